@@ -3,7 +3,8 @@
    everything else (handlers, history, reload, rollback, extraction, hint runner) is the
    model's own code.  Strings are interned to N by the harness; times are exact rationals. *)
 From Coq Require Import List NArith QArith Bool.
-From V.Model Require Import Engine.
+From Coq Require Import Qabs Qminmax.
+From V.Model Require Import Engine Play.
 Import ListNotations.
 
 Definition IEv := (N * N * option Q)%type.          (* event id, skill-name id, DELAY time *)
@@ -194,3 +195,53 @@ Section Inst.
     | Some ep => Some (hint_chain init pcs (I_extract ep 0) hops)
     end.
 End Inst.
+
+(* ---------------------------------------------------------------- C06: documented clock advance *)
+Definition I_advance (o : op Q N) (b e1 : list IEv) : Q :=
+  advance IEv Q N I_ev_name I_ev_delay N.eqb 0%Q I_tpos o b e1.
+Definition qnear (a b : Q) : bool := Qle_bool (Qabs (a - b)) ((1#1000000000) * Qmax 1 (Qabs b)).
+Definition last_pl (ls : list Ilog) : option (playlog IEv IAct N Q) := last_plog IEv IAct N IH Q N N ls.
+(* indices of logs whose clock advance is not the documented one *)
+Fixpoint advance_bad (i : N) (seen : list Ilog) (rest : list Ilog) : list N :=
+  match rest with
+  | [] => []
+  | l :: r =>
+      let bad :=
+        match lcmd _ _ _ _ _ _ _ l, last_pl seen with
+        | Op _ _ o _, Some p0 =>
+            let before := pclock _ _ _ _ p0 in
+            let after := match last_pl [l] with Some p => pclock _ _ _ _ p | None => before end in
+            let e1 := match lplogs _ _ _ _ _ _ _ l with p :: _ => pevents _ _ _ _ p | [] => [] end in
+            negb (qnear after (before + I_advance o (pevents _ _ _ _ p0) e1))
+        | Console _ _ _, _ => negb (match lplogs _ _ _ _ _ _ _ l with [] => true | _ => false end)
+        | _, None => true
+        end in
+      (if bad then [i] else []) ++ advance_bad (N.succ i) (seen ++ [l]) r
+  end.
+
+(* ---------------------------------------------------------------- C05: the dispatch queue of a play *)
+Definition QEv := Play.event N N N N.          (* payload id, name id, method id, tag id *)
+Definition QAct := Play.action N N N N.
+Definition qam_eqb (a b : Play.ameth N N) : bool :=
+  match a, b with
+  | Direct _ _ m, Direct _ _ n => N.eqb m n
+  | Emitted _ _ m t, Emitted _ _ n u | Done _ _ m t, Done _ _ n u => N.eqb m n && N.eqb t u
+  | _, _ => false
+  end.
+Definition qap_eqb (a b : Play.apay N) : bool :=
+  match a, b with
+  | PNone _, PNone _ => true
+  | PTime _ t, PTime _ u => Z.eqb t u
+  | PEvent _ p, PEvent _ q => N.eqb p q
+  | _, _ => false
+  end.
+Definition qact_eqb (a b : QAct) : bool :=
+  N.eqb (aname _ _ _ _ a) (aname _ _ _ _ b) && qam_eqb (am _ _ _ _ a) (am _ _ _ _ b) && qap_eqb (ap _ _ _ _ a) (ap _ _ _ _ b).
+Definition model_queue (prev_events : list QEv) (a : QAct) : list QAct :=
+  Play.queue N N N N (map (Play.callbacks N N N N) prev_events) a.
+(* one recorded play: events of the previous play, the action, the actions the router actually received *)
+Definition queue_ok (c : list QEv * QAct * list QAct) : bool :=
+  let '(pe, a, tr) := c in
+  (fix go x y := match x, y with [], [] => true | u :: x', v :: y' => qact_eqb u v && go x' y' | _, _ => false end) (model_queue pe a) tr.
+Fixpoint queue_bad (i : N) (cs : list (list QEv * QAct * list QAct)) : list N :=
+  match cs with [] => [] | c :: r => (if queue_ok c then [] else [i]) ++ queue_bad (N.succ i) r end.
